@@ -166,9 +166,6 @@ def specOvlOk (i : Inst) (dl : DLayer) : Bool :=
               && m.upper == upperDir i dl.name && m.work == workDir i dl.name
   | none => true
 
-def specAnyImport (i : Inst) (dl : DLayer) : Bool :=
-  dl.file.mounts.any fun imp => (topAt i.mnts (pathJoin [buildDir i dl.name, imp.mount])).isSome
-
 def specFhs (i : Inst) (dl : DLayer) : Bool :=
   fhsDirs.all fun d => Fs.isDir i.fs (pathJoin [buildDir i dl.name, d])
 
@@ -183,7 +180,7 @@ theorem stateOf_unfold (i : Inst) (ls : List DLayer) (users : List (Bytes × Lis
        if derived && !specParentMountable ps then .complete else
        if derived && !specOvlOk i dl then .error else
        if derived && (topAt i.mnts (buildDir i dl.name)).isNone then
-         (if specAnyImport i dl then .partialmount else .mountable)
+         (if mountedAtOrBelow i dl.name then .error else .mountable)
        else
        if !specFhs i dl then .complete else
        if (specImports i ls dl).any (fun x => x.2.1.isNone) then .inhabited else
@@ -556,6 +553,9 @@ theorem classify_eq_specTail_of (i : Inst) (ls : List DLayer) (users : List (Byt
     has the type and (for an overlay) the lower/upper/work directories of the kernel's -/
 structure OverlayBridge (i : Inst) (m : Mounts) (bd : Bytes) : Prop where
   mounted : (getMount m bd).isSome = (topAt i.mnts bd).isSome
+  /-- "something is mounted at or below the build directory": `GetMountAndSubmounts` is not
+      empty iff the kernel table has such a mount -/
+  below : decide ((getMountAndSubmounts m bd).length > 0) = i.mnts.any (fun k => atOrBelow bd k.mp)
   fields : ∀ mnt km, getMount m bd = some mnt → topAt i.mnts bd = some km →
     mnt.fstype = km.fstype ∧
     (km.fstype = b!"overlay" → mnt.source = km.lower ∧ mnt.source2 = km.upper ∧ mnt.workdir = km.work)
@@ -567,7 +567,10 @@ theorem findLayerstate_derived (cfg : Config) (fs : Fs.Tree) (d : Defs) (l bl : 
         .ok { l with mounts := getMountAndSubmounts d.mounts (buildPath cfg l), state := S_complete }
       else match getMount d.mounts (buildPath cfg l) with
         | none =>
-          .ok { l with mounts := getMountAndSubmounts d.mounts (buildPath cfg l), state := S_mountable }
+          if (getMountAndSubmounts d.mounts (buildPath cfg l)).length > 0 then
+            .ok { l with mounts := getMountAndSubmounts d.mounts (buildPath cfg l), state := S_error }
+          else
+            .ok { l with mounts := getMountAndSubmounts d.mounts (buildPath cfg l), state := S_mountable }
         | some mnt =>
           if mnt.fstype != b!"overlay" || (mnt.source != buildPath cfg bl || mnt.source2 != upperPath cfg l
                 || mnt.workdir != workPath cfg l) then
@@ -588,7 +591,11 @@ theorem findLayerstate_derived (cfg : Config) (fs : Fs.Tree) (d : Defs) (l bl : 
     show afterPre cfg fs d (buildPath cfg l) _
       (match getMount d.mounts (buildPath cfg l) with | none => _ | some mnt => _) = _
     cases hg : getMount d.mounts (buildPath cfg l) with
-    | none => rfl
+    | none =>
+      simp only []
+      by_cases hlen : (getMountAndSubmounts d.mounts (buildPath cfg l)).length > 0
+      · simp only [hlen, ↓reduceIte]; rfl
+      · simp only [hlen, ↓reduceIte]; rfl
     | some mnt =>
       simp only []
       by_cases hft : (mnt.fstype != b!"overlay") = true
@@ -609,16 +616,16 @@ theorem findLayerstate_derived (cfg : Config) (fs : Fs.Tree) (d : Defs) (l bl : 
 
 /-! ### when the two "inside the build directory" tests agree -/
 
-/-- `p` is not below `dir`, or the first byte of its path relative to `dir` exists and is not '.' -/
-def relNotDot (dir p : Bytes) : Bool :=
+/-- `p` is not below `dir`, or its path relative to `dir` is a proper relative path: not
+    empty, not ".", not "..", not beginning with "../" -/
+def relProper (dir p : Bytes) : Bool :=
   !hasPrefix p (dir ++ [47]) ||
-    match (p.drop (dir.length + 1)).head? with
-    | some c => c != 46
-    | none => false
+    ((p.drop (dir.length + 1)).length > 0 && p.drop (dir.length + 1) != [46]
+      && p.drop (dir.length + 1) != [46, 46] && !hasPrefix (p.drop (dir.length + 1)) [46, 46, 47])
 
 theorem descendant_or_eq_iff (dir p : Bytes) (hd : dir ≠ [47]) :
-    ((isDescendant dir p || dir == p) = atOrBelow dir p) ↔ relNotDot dir p = true := by
-  unfold isDescendant atOrBelow relNotDot Fs.under
+    ((isDescendant dir p || dir == p) = atOrBelow dir p) ↔ relProper dir p = true := by
+  unfold isDescendant atOrBelow relProper Fs.under
   have hd' : (dir == [47]) = false := by simpa using hd
   simp only [hd', Bool.false_eq_true, ↓reduceIte]
   by_cases he : p = dir
@@ -636,29 +643,14 @@ theorem descendant_or_eq_iff (dir p : Bytes) (hd : dir ≠ [47]) :
     | false => simp
     | true =>
       simp only [↓reduceIte, Bool.not_true, Bool.false_or]
-      cases hh : (p.drop (dir.length + 1)).head? with
-      | none =>
-        have : p.drop (dir.length + 1) = [] := by
-          cases hx : p.drop (dir.length + 1) with
-          | nil => rfl
-          | cons a as => rw [hx] at hh; cases hh
-        simp [this]
-      | some c =>
-        have hlen : (p.drop (dir.length + 1)).length > 0 := by
-          cases hx : p.drop (dir.length + 1) with
-          | nil => rw [hx] at hh; cases hh
-          | cons a as => simp
-        by_cases hc : c = 46
-        · subst hc; simp
-        · have hlen' : 0 < p.length - (dir.length + 1) := by simpa using hlen
-          simp [hc, hlen']
 
-/-- the hypothesis `ExportSrcAgree` of the classification theorems, in plain terms: the
-    export source is outside the build directory, the build directory itself, or a path
-    below it whose first component does not begin with '.' -/
+/-- the hypothesis `ExportSrcAgree` of the classification theorems, in plain terms (after
+    fix eeedaf2): the export source is outside the build directory, the build directory
+    itself, or a path below it that is not "", ".", ".." or "../…" relative to it — which
+    every clean path is (`Lc.InLayers.relProper_clean`) -/
 theorem export_src_agree_iff (i : Inst) (n : Bytes) (e : NeededMount) (hd : buildDir i n ≠ [47]) :
     ExportSrcAgree i n e ↔
-      relNotDot (buildDir i n) (pathJoin [layerDir i n, i.cfg.buildRoot, e.source]) = true := by
+      relProper (buildDir i n) (pathJoin [layerDir i n, i.cfg.buildRoot, e.source]) = true := by
   unfold ExportSrcAgree
   exact descendant_or_eq_iff _ _ hd
 
@@ -697,6 +689,7 @@ instance (i : Inst) (m : Mounts) (e : Expanded) : Decidable (ImportBridge i m e)
 
 def overlayBridgeB (i : Inst) (m : Mounts) (bd : Bytes) : Bool :=
   decide ((getMount m bd).isSome = (topAt i.mnts bd).isSome) &&
+  decide (decide ((getMountAndSubmounts m bd).length > 0) = i.mnts.any (fun k => atOrBelow bd k.mp)) &&
   match getMount m bd, topAt i.mnts bd with
   | some mnt, some km =>
     decide (mnt.fstype = km.fstype) &&
@@ -709,8 +702,8 @@ theorem overlayBridge_iff (i : Inst) (m : Mounts) (bd : Bytes) :
   unfold overlayBridgeB
   simp only [Bool.and_eq_true, decide_eq_true_eq]
   constructor
-  · rintro ⟨h1, h2⟩
-    refine ⟨h1, ?_⟩
+  · rintro ⟨⟨h1, hb⟩, h2⟩
+    refine ⟨h1, hb, ?_⟩
     intro mnt km hg ht
     rw [hg, ht] at h2
     simp only [Bool.and_eq_true, decide_eq_true_eq, Bool.or_eq_true, bne_iff_ne, ne_eq] at h2
@@ -719,7 +712,7 @@ theorem overlayBridge_iff (i : Inst) (m : Mounts) (bd : Bytes) :
     · exact absurd hov h
     · exact ⟨h.1.1, h.1.2, h.2⟩
   · intro h
-    refine ⟨h.mounted, ?_⟩
+    refine ⟨⟨h.mounted, h.below⟩, ?_⟩
     cases hg : getMount m bd with
     | none => rfl
     | some mnt =>
